@@ -16,7 +16,7 @@ from bctmc.runner import guarded
 from bctmc.tally import Tally
 
 PROPERTY = 'C18'
-RULE = ('random-walk measures: every connected undirected graph over weights {1,2} and {0.5,1} on n<=4, binary n=5, every '
+RULE = ('random-walk measures: every connected undirected graph over weights {1,2}, {0.5,1} and the nearly decomposable {0.002,1} (n<=5) on n<=4, binary n=5, every '
         'strongly connected binary digraph n<=4 (thorough: weights {1,2} and {0.5,1,2} on n=5); pagerank additionally x d in '
         '{0.5,0.85} x falff in {None, non-uniform}; spectral measures and findwalks: every undirected graph n<=6 (findwalks also '
         'every digraph n<=4) plus C8, K4,4, Petersen, 2xK4, 3-cube, K3,3+isolated; non-trivial = graph with a repeated '
@@ -30,6 +30,8 @@ RW = {
     'rw_und4_half': (False, 4, (0, 0.5, 1), 'q'), 'rw_und5_bin': (False, 5, (0, 1), 'q'),
     'rw_dir3_bin': (True, 3, (0, 1), 'q'), 'rw_dir4_bin': (True, 4, (0, 1), 'q'),
     'rw_dir3_half': (True, 3, (0, 0.5, 2), 'q'),
+    'rw_und4_weak': (False, 4, (0, 0.002, 1), 'q'), 'rw_und5_weak': (False, 5, (0, 0.002, 1), 'q'),
+    'rw_dir3_weak': (True, 3, (0, 0.002, 1), 'q'),
     'rw_und5_12': (False, 5, (0, 1, 2), 't'), 'rw_und5_half': (False, 5, (0, 0.5, 1), 't'),
 }
 SP = {'sp_und2': 2, 'sp_und3': 3, 'sp_und4': 4, 'sp_und5': 5, 'sp_und6': 6}
